@@ -2982,32 +2982,19 @@ func (dsc *dataStoreCommand) sort(sourceKeyName, byPattern, destKeyName string, 
 
 	// get the values to sort
 	var vals []sortVal
-	list, _ := dsc.getListUnlocked(sourceKeyName)
-	if list != nil {
-		// convert linked list into a value array
-		vals = make([]sortVal, 0, list.count)
-		for i := list.head; i != nil; i = i.next {
-			sv := sortVal{
-				data: string(i.element),
+	sk, objExists := dsc.getKeyObjectUnlocked(sourceKeyName)
+	if objExists {
+		if list := sk.getList(); list != nil {
+			// convert linked list into a value array
+			vals = make([]sortVal, 0, list.count)
+			for i := list.head; i != nil; i = i.next {
+				vals = append(vals, sortVal{data: string(i.element)})
 			}
-			vals = append(vals, sv)
-		}
-	} else {
-		sk, objExists := dsc.getKeyObjectUnlocked(sourceKeyName)
-		if !objExists {
-			output = nativeValueToResp([]any{})
-			return
-		}
-
-		ss := sk.getSet()
-		if ss != nil {
+		} else if ss := sk.getSet(); ss != nil {
 			// convert set (a hash table) into a value array
 			vals = make([]sortVal, 0, ss.count)
 			for i := ss.createIterator(); i.next(); {
-				sv := sortVal{
-					data: i.value.(string),
-				}
-				vals = append(vals, sv)
+				vals = append(vals, sortVal{data: i.key})
 			}
 		} else {
 			output.data = wrongTypeError
@@ -3015,60 +3002,50 @@ func (dsc *dataStoreCommand) sort(sourceKeyName, byPattern, destKeyName string, 
 		}
 	}
 
-	dontSort := false
-	if byPattern != "" {
-		if !strings.Contains(byPattern, "*") {
-			dontSort = true
-		} else {
-			for idx, val := range vals {
+	dontSort := byPattern != "" && !strings.Contains(byPattern, "*")
+	if !dontSort {
+		for idx, val := range vals {
+			// the weight is the element itself, or the value of the key named by the BY pattern
+			weight := val.data
+			hasWeight := true
+			if byPattern != "" {
 				pat := strings.Replace(byPattern, "*", val.data, 1)
 				byVal, byValExists := dsc.getKeyUnlocked(pat)
-				if byValExists != VALUE_EXISTS {
-					val.sortByStr = "0"
-					val.sortByFloat = 0
-				} else {
-					val.sortByStr = byVal
-					if !alpha {
-						f64, parseErr := strconv.ParseFloat(byVal, 64)
-						if parseErr != nil {
-							output.data = respErrorString("ERR One or more scores can't be converted into double")
-							return
-						}
-						val.sortByFloat = f64
-					}
-				}
-				vals[idx] = val
+				weight = byVal
+				hasWeight = (byValExists == VALUE_EXISTS)
 			}
-		}
-	}
 
-	if !dontSort {
-		// pick a sorting strategy
-		if alpha {
-			if !desc {
-				// asc alpha
-				sort.Slice(vals, func(i, j int) bool {
-					return vals[i].sortByStr < vals[j].sortByStr
-				})
-			} else {
-				// desc alpha
-				sort.Slice(vals, func(i, j int) bool {
-					return vals[j].sortByStr < vals[i].sortByStr
-				})
+			val.sortByStr = weight
+			if !alpha && hasWeight {
+				f64, parseErr := strconv.ParseFloat(strings.TrimSpace(weight), 64)
+				if parseErr != nil || math.IsNaN(f64) {
+					output.data = respErrorString("ERR One or more scores can't be converted into double")
+					return
+				}
+				val.sortByFloat = f64
 			}
-		} else {
-			if !desc {
-				// asc numeric
-				sort.Slice(vals, func(i, j int) bool {
-					return vals[i].sortByFloat < vals[j].sortByFloat
-				})
-			} else {
-				// desc numeric
-				sort.Slice(vals, func(i, j int) bool {
-					return vals[j].sortByFloat < vals[i].sortByFloat
-				})
-			}
+			vals[idx] = val
 		}
+
+		// equal weights are ordered by the elements themselves, so the result is deterministic
+		compare := func(a, b *sortVal) int {
+			if alpha {
+				if c := strings.Compare(a.sortByStr, b.sortByStr); c != 0 {
+					return c
+				}
+			} else if a.sortByFloat < b.sortByFloat {
+				return -1
+			} else if a.sortByFloat > b.sortByFloat {
+				return 1
+			}
+			return strings.Compare(a.data, b.data)
+		}
+		sort.SliceStable(vals, func(i, j int) bool {
+			if desc {
+				return compare(&vals[i], &vals[j]) > 0
+			}
+			return compare(&vals[i], &vals[j]) < 0
+		})
 	}
 
 	if limit {
@@ -3076,19 +3053,13 @@ func (dsc *dataStoreCommand) sort(sourceKeyName, byPattern, destKeyName string, 
 		if start < 0 {
 			start = 0
 		}
-
-		if count < 0 {
-			count = len(vals)
+		if start > len(vals) {
+			start = len(vals)
 		}
 
-		end := start + count
-		if start >= len(vals) {
-			start = 0
-			end = 0
-		} else if end < start {
-			end = start
-		} else if end >= len(vals) {
-			end = len(vals)
+		end := len(vals)
+		if count >= 0 && count < end-start {
+			end = start + count
 		}
 		vals = vals[start:end]
 	}
@@ -3125,14 +3096,17 @@ func (dsc *dataStoreCommand) sort(sourceKeyName, byPattern, destKeyName string, 
 	}
 
 	if destKeyName != "" {
-		list := dsc.newListUnlocked(destKeyName)
-
-		for _, element := range a {
-			str, _ := element.toString()
-			dsc.rpushUnlocked(destKeyName, list, []byte(str))
+		// the result replaces whatever the destination held; an empty result deletes it
+		dsc.ds.data.remove(destKeyName)
+		if len(a) > 0 {
+			list := dsc.newListUnlocked(destKeyName)
+			for _, element := range a {
+				str, _ := element.toString() // a missing GET value is stored as an empty string
+				dsc.rpushUnlocked(destKeyName, list, []byte(str))
+			}
 		}
 
-		output.data = respInt(list.count)
+		output.data = respInt(len(a))
 	} else {
 		output = nativeValueToResp(a)
 	}
